@@ -186,9 +186,33 @@ pub fn repeated_fault(seed: u64, idx: u64) -> Scenario {
     sc
 }
 
+/// a burst of far more simultaneous connections than workers (some of them silent), then the probe
+pub fn burst(seed: u64, idx: u64) -> Scenario {
+    let mut rng = rng_for(seed, "C06", "burst", idx);
+    let mut sc = Scenario::base("C06", "burst", idx);
+    sc.engine = Engine::System;
+    sc.sched = Sched { kind: SchedKind::Random, seed: rng.next(), depth: 0 };
+    sc.workers = rng.range(1, 4);
+    sc.request_size = 16000;
+    sc.tree = small_tree(0xC06);
+    let n = *rng.pick(&[35usize, 70, 130, 260, 520, 1100]);
+    let silent = rng.chance(1, 2);
+    for i in 0..n {
+        let mut c = Conn::simple(i, 0, get("/file.txt"), "burst");
+        if silent && i % 3 == 0 {
+            c.client = ClientMode::Gone { segments_sent: Some(0), reset: i % 2 == 0, write: GoneWrite::Epipe };
+            c.class = "burst_silent".into();
+        }
+        sc.conns.push(c);
+    }
+    sc.probe = Probe::Capacity { request: probe_request().into() };
+    sc
+}
+
 pub fn plan(tier: Tier, seed: u64) -> Vec<Campaign> {
     vec![
         Campaign { name: "single_fault_enumeration", budget: Budget::Count(enumeration_size()), exhaustive: true, gen: Box::new(move |i| enumerated(seed, i)) },
+        Campaign { name: "burst", budget: match tier { Tier::Quick => Budget::Count(24), Tier::Thorough => Budget::Time(1) }, exhaustive: false, gen: Box::new(move |i| burst(seed, i)) },
         Campaign { name: "repeated_fault", budget: match tier { Tier::Quick => Budget::Count(1500), Tier::Thorough => Budget::Time(1) }, exhaustive: false, gen: Box::new(move |i| repeated_fault(seed, i)) },
         match tier {
             Tier::Quick => Campaign { name: "random_histories", budget: Budget::Count(2000), exhaustive: false, gen: Box::new(move |i| random_history(seed, i, 40)) },
